@@ -32,7 +32,7 @@ def run(tier, seed, scale=1.0):
     per = int((80000 if tier == "quick" else 6000000) * scale)
     sp = C02.private_spec("legacy", "legacy", seed, opts={"corpus": CORPUS})
     res = vdriver.explore(sp, per, chunk=max(100, min(2000, per // 128)), chunk_timeout=900,
-                          stop_after_violations=100000)
+                          stop_after_violations=2000)
     C02.drop_private()
     calls = res.counters.get("legacy_calls", 0)
     return common.finish(PROP, tier, seed, "exploration", res, own, RULE, t0,
